@@ -15,9 +15,12 @@ Observed(m, r) ==
     /\ M!Unique(m)
 
 \* "end": the execution is over and its table / object released: nothing json-c allocated during it remains
-StepOfImpl(m, r) == IF r.op = "end" THEN [ok |-> r.leak = 0, st |-> m] ELSE
+\* raw tables are created with an entry-free callback: it runs once for every entry that leaves the table - by a
+\* deletion, or with the table at the end - and never otherwise (r.nfree = calls since the previous event)
+FreedOk(m, m2, r) == "nfree" \in DOMAIN r => r.nfree = (IF Len(m) > Len(m2) THEN Len(m) - Len(m2) ELSE 0)
+StepOfImpl(m, r) == IF r.op = "end" THEN [ok |-> r.leak = 0 /\ ("nfree" \in DOMAIN r => r.nfree = Len(m)), st |-> m] ELSE
                     LET s == M!CallStep(m, r) IN
-                    IF s.ok THEN [ok |-> Observed(s.om, r), st |-> s.om] ELSE [ok |-> FALSE, st |-> m]
+                    IF s.ok THEN [ok |-> Observed(s.om, r) /\ FreedOk(m, s.om, r), st |-> s.om] ELSE [ok |-> FALSE, st |-> m]
 TraceLog == ndJsonDeserialize(IOEnv.TRACE)
 T == INSTANCE TraceBase WITH Log <- TraceLog, InitSt <- <<>>, StepOf <- StepOfImpl, ResyncAtNew <- TRUE
 Spec == T!Spec
